@@ -25,15 +25,15 @@ structure N where
   running : Bool
   failed : Bool
   cached : Option Nat
-  job : Option (Nat × Bool)        -- in-flight executor job: (input it was submitted with, will it raise)
+  job : Option Nat                 -- in-flight executor job: the input it was submitted with
   deriving Repr, DecidableEq
 
 def N.init : N := { inp := 0, out := none, running := false, failed := false, cached := none, job := none }
 
 inductive Op
   | set (v : Nat)                  -- assign the input
-  | run (fails : Bool)             -- run locally; the function raises iff `fails`
-  | submit (fails : Bool)          -- run on an executor
+  | run                            -- run locally
+  | submit                         -- run on an executor
   | complete                       -- the executor job finishes (callback)
   | clearFailed                    -- `node.failed = False`
   deriving Repr, DecidableEq
@@ -45,7 +45,8 @@ inductive R
 
 def N.ready (n : N) : Bool := !n.running && !n.failed && n.inp != 0
 
-def runLike (cfg : Cfg) (useCache : Bool) (n : N) (fails onExec : Bool) : N × R :=
+/-- `bad v`: the (deterministic) function raises on input `v` -/
+def runLike (cfg : Cfg) (bad : Nat → Bool) (useCache : Bool) (n : N) (onExec : Bool) : N × R :=
   let hit := useCache && n.cached == some n.inp && (!cfg.guardHit || (!n.running && n.ready))
   if hit then (n, .ret n.out)
   else
@@ -53,30 +54,31 @@ def runLike (cfg : Cfg) (useCache : Bool) (n : N) (fails onExec : Bool) : N × R
     if !n.ready then (n1, .readiness)
     else
       let n2 := if useCache && cfg.writeAfterGate then { n1 with cached := some n.inp } else n1
-      if onExec then ({ n2 with running := true, job := some (n.inp, fails) }, .future)
-      else if fails then
+      if onExec then ({ n2 with running := true, job := some n.inp }, .future)
+      else if bad n.inp then
         ({ n2 with failed := true, cached := if cfg.clearOnFail then none else n2.cached }, .raised)
       else ({ n2 with out := some n.inp }, .ret (some n.inp))
 
-def step (cfg : Cfg) (useCache : Bool) (n : N) : Op → N × R
+def step (cfg : Cfg) (bad : Nat → Bool) (useCache : Bool) (n : N) : Op → N × R
   | .set v => if n.running then (n, .locked) else ({ n with inp := v }, .unit)
-  | .run f => runLike cfg useCache n f false
-  | .submit f => runLike cfg useCache n f true
+  | .run => runLike cfg bad useCache n false
+  | .submit => runLike cfg bad useCache n true
   | .complete =>
     match n.job with
     | none => (n, .unit)
-    | some (v, f) =>
-      if f then ({ n with running := false, failed := true, job := none,
-                          cached := if cfg.clearOnFail then none else n.cached }, .unit)
+    | some v =>
+      if bad v then
+        ({ n with running := false, failed := true, job := none,
+                  cached := if cfg.clearOnFail then none else n.cached }, .unit)
       else ({ n with running := false, out := some v, job := none }, .unit)
   | .clearFailed => ({ n with failed := false }, .unit)
 
 /-- apply a history, collecting what every operation returned -/
-def runOps (cfg : Cfg) (useCache : Bool) (n : N) : List Op → N × List R
+def runOps (cfg : Cfg) (bad : Nat → Bool) (useCache : Bool) (n : N) : List Op → N × List R
   | [] => (n, [])
   | o :: os =>
-    let (n1, r) := step cfg useCache n o
-    let (n2, rs) := runOps cfg useCache n1 os
+    let (n1, r) := step cfg bad useCache n o
+    let (n2, rs) := runOps cfg bad useCache n1 os
     (n2, r :: rs)
 
 /-- what a user can see of a node -/
